@@ -1885,6 +1885,19 @@ class ufunc:
         out_dt = _BOOL if (n in _CMP or n in _LOGICAL or n == "logical_not") else in_dt
         if n == "true_divide" and in_dt.kind in "iub":
             in_dt = out_dt = _F64             # numpy: true division of integers / bools is carried out in float64
+        if n in _CMP and in_dt.kind in "iu" and in_dt.bits < 64 and _py_any(o[3] and o[2].kind in "iu" for o in ops):
+            in_dt = _I64          # comparisons with python integers are decided on the mathematical values (no wrap to the array's type)
+        if in_dt.kind in "iu" and in_dt.bits < 64 and n not in _CMP and n not in _LOGICAL and _py_any(not o[3] for o in ops):
+            # NEP 50: a python integer combined with a narrower integer array must fit that type (comparisons are exempt)
+            lo, hi = (0, (1 << in_dt.bits) - 1) if in_dt.kind == "u" else (-(1 << (in_dt.bits - 1)), (1 << (in_dt.bits - 1)) - 1)
+            for o in ops:
+                if o[3] and o[2].kind in "iu":
+                    for v in o[0]:
+                        if is_sym(v):
+                            if z3.is_int(v) and not E().branch(z3.And(v >= lo, v <= hi)):
+                                raise OverflowError(f"Python integer out of bounds for {in_dt.name}")
+                        elif isinstance(v, builtins.int) and not isinstance(v, builtins.bool) and not lo <= v <= hi:
+                            raise OverflowError(f"Python integer {v} out of bounds for {in_dt.name}")
         shp = ()
         for o in ops:
             shp = _bshape(shp, o[1])
